@@ -8,7 +8,13 @@ import random
 from .refmodel import AA, POS, NEG, NEUTRALS
 
 CLASSES = ("idp", "polyampholyte", "polyelectrolyte", "lowcomplexity", "hydrophobic",
-           "uniform", "single", "short", "neutral_rich", "sty_rich", "titratable")
+           "uniform", "single", "short", "neutral_rich", "sty_rich", "titratable", "lookalike")
+
+# legal protein words that read like something else: nucleotide strings (A, C, G, T and the IUPAC ambiguity letters that are
+# also residues), open reading frames, DSSP / secondary-structure strings, hexadecimal-looking words
+LOOKALIKE_ALPHABETS = ["ACGT", "ACGT", "ACG", "ACGTN", "ACGTRYKMSWDHVN", "HEC", "HEGTSC", "ACDEF", "ATGC"]
+LOOKALIKE_WORDS = ["GATTACA", "ACGT", "TGCA", "GATTACAGATTACA", "GATTACAGCTGATTACAGCTG", "ATGGAAGAAGAAGCAGGTAAAAAAAAATGA", "ATGGCCTGA",
+                   "ATGAAATAA", "ATGGCAGCATAG", "TATAAT", "CAGCAGCAGCAGCAGCAGCAGCAGCAGCAG", "HHHHHHEEEEEECCCCCC", "DEADFACE", "ACCGGTTAACCGGTTAACCGGTT"]
 
 _WEIGHTS = {
     "idp": "DDEEEKKKRSSSGGPPQQTANH",
@@ -33,6 +39,17 @@ def rand_seq(rng, cls=None, lo=1, hi=400):
     n = max(lo, min(hi, loglen(rng, max(lo, 1), hi)))
     if cls == "single":
         return rng.choice(AA) * n
+    if cls == "lookalike":
+        if rng.random() < 0.4:
+            return rng.choice(LOOKALIKE_WORDS)
+        letters = rng.choice(LOOKALIKE_ALPHABETS)
+        body = list(letters) + [rng.choice(letters) for _ in range(max(0, n - len(letters)))]   # every letter present
+        rng.shuffle(body)
+        if letters in ("ACGT", "ATGC") and rng.random() < 0.3:
+            # an open reading frame: ATG ... stop, whole codons
+            core = "".join(body)[:max(0, 3 * ((len(body) - 6) // 3))]
+            return "ATG" + core + rng.choice(["TAA", "TAG", "TGA"])
+        return "".join(body)
     if cls == "polyelectrolyte":
         letters = rng.choice(["KR", "DE", "K", "E", "R", "D"]) + rng.choice(["", "G", "GS", "GSPQ"])
         return "".join(rng.choice(letters) for _ in range(n))
@@ -129,4 +146,4 @@ def distinct_compositions(rng, count, nmin=10, nmax=30):
 
 # valid one-letter sequences that happen to spell three-letter residue codes, file names or number-like words
 CODE_WORDS = ["ALA", "MET", "ARG", "SER", "LYSLYS", "GLYGLY", "ASPARGLYS", "METSERLYS", "LYSARGLYS", "GLYSERGLYSER", "HISTHRVALALA",
-              "TYRILEPHEASN", "ARGASPLYSGLYSERASPARGALALYSASP", "ALAGLY", "METHIS", "NAN", "INF", "GSPGRGLYS", "LAA", "GYLAAL"]
+              "TYRILEPHEASN", "ARGASPLYSGLYSERASPARGALALYSASP", "ALAGLY", "METHIS", "NAN", "INF", "GSPGRGLYS", "LAA", "GYLAAL"] + LOOKALIKE_WORDS
